@@ -18,7 +18,7 @@ ASSUMPTIONS = [
     "the process is Unitary(V) with V a 2x2 unitary with three symbolic angles (every single-qubit unitary up to a global phase, which the Choi matrix does not see); thorough adds V1 (x) V2 on two qubits; the experiment callback returns exact outcome probabilities computed from the received circuit and input state by the reference Fock amplitude",
     "np.linalg.pinv / np.linalg.solve act on constant Gaussian-rational matrices only: computed numerically, rationalised and certified exactly (four Penrose identities / A x = b in integer arithmetic) before use",
 ]
-BOUNDS = {"quick": "one qubit: LI, gate fidelity (second symbolic unitary as target, and target = V), MLE forward model and TP projection", "thorough": "adds two qubits V1 (x) V2 for LI and gate fidelity"}
+BOUNDS = {"quick": "one qubit: LI, gate fidelity (second symbolic unitary as target, and target = V), MLE forward model and TP projection", "thorough": "adds two qubits: V1 (x) V2 for LI and gate fidelity, and CZ.(V1 (x) 1) through the library's post-selected CZ for LI"}
 OUTSIDE = ("NOT ENCODABLE: the MLE projected-gradient descent (np.linalg.eigh in _cp_proj, data-dependent stopping) - therefore 'MLE returns a positive, trace-preserving Choi matrix with fidelity >= 0.99'; "
            "fidelity() of both classes (scipy.linalg.sqrtm). Only the MLE forward model and its TP projection are decided.")
 STUBS = ["experiment callback -> exact outcome probabilities from the received circuits", "np.linalg.pinv/solve -> certified exact results on constant matrices"]
@@ -43,23 +43,43 @@ def _make_callback(ctx, n, calls):
         out = []
         for ci, (c, st) in enumerate(zip(circuits, inputs)):
             U = c.U_full
-            full_in = list(st.s)
+            her = c.heralds
+            full_in = ref.insert_heralds(list(st.s), her["input"])
             res = {}
             order = _bits(n)
             if ci % 2:
                 order = list(reversed(order))
+            tot = 0
             for bits in order:
                 o = _dual(bits)
-                a = ref.fock_amp(ctx, U, full_in, o)
+                a = ref.fock_amp(ctx, U, full_in, ref.insert_heralds(o, her["output"]))
                 res[lw.State(o)] = ctx.m.abs2(a)
+                tot = tot + res[lw.State(o)]
+            if her["input"]:
+                # post-selected / heralded gate: condition on one photon per qubit
+                res = {k: v / tot for k, v in res.items()}
             out.append(res)
         return out
     return experiment
 
 
-def _process(ctx, n, tag=""):
+def _process(ctx, n, tag="", kind="product"):
     """(circuit, qubit-space unitary) of the process under test"""
     lw = ctx.lw
+    if kind == "cz":
+        # CZ . (V1 (x) 1) through the library's post-selected CZ (ancilla modes present)
+        V1 = ctx.unitary2(tag + "V")
+        c = lw.Circuit(4)
+        c.add(lw.Unitary(V1), 0)
+        c.add(lw.qubit.CZ(), 0)
+        K = _np.empty((4, 4), dtype=object)
+        for i in range(2):
+            for j in range(2):
+                for k in range(2):
+                    for l in range(2):
+                        v = V1[i, j] * (1 if k == l else 0)
+                        K[2 * i + k, 2 * j + l] = -v if (i == 1 and k == 1) else v
+        return c, K
     if n == 1:
         V = ctx.unitary2(tag + "V")
         return lw.Unitary(V), V
@@ -76,9 +96,9 @@ def _process(ctx, n, tag=""):
     return c, K
 
 
-def h_li(ctx, n):
+def h_li(ctx, n, kind="product"):
     lw = ctx.lw
-    base, V = _process(ctx, n)
+    base, V = _process(ctx, n, kind=kind)
     calls = []
     obs = (base.n_modes, len(base._get_circuit_spec()))
     tomo = lw.tomography.LIProcessTomography(n, base, _make_callback(ctx, n, calls))
@@ -180,7 +200,7 @@ def h_mle_tp(ctx):
 def harnesses(tier):
     ns = (1,) if tier == "quick" else (1, 2)
     return [
-        ("li", h_li, [dict(n=n) for n in ns], dict(max_seconds=3000)),
+        ("li", h_li, [dict(n=n) for n in ns] + ([dict(n=2, kind="cz")] if tier != "quick" else []), dict(max_seconds=3000)),
         ("gate-fidelity", h_gate_fidelity, [dict(n=n, same=s) for n in ns for s in (False, True)], dict(max_seconds=3000)),
         ("mle-forward-model", h_mle_forward, [dict()]),
         ("mle-tp-projection", h_mle_tp, [dict()]),
